@@ -930,6 +930,63 @@ class Interp:
             for m in reversed(mgrs):
                 self.call_method(m, "__exit__", [None, None, None])
 
+    def x_Match(self, s, env, mod):
+        subject = self.ev(s.subject, env, mod)
+        for case in s.cases:
+            binds = {}
+            if self._match_pattern(case.pattern, subject, binds, env, mod):
+                for k_, v_ in binds.items():
+                    self.store_name(k_, v_, env)
+                if case.guard is None or self.truth(self.ev(case.guard, env, mod)):
+                    return self.exec_block(case.body, env, mod)
+        return None
+
+    def _match_pattern(self, pat, subject, binds, env, mod):
+        if isinstance(pat, ast.MatchAs):
+            if pat.pattern is not None and not self._match_pattern(pat.pattern, subject, binds, env, mod):
+                return False
+            if pat.name is not None:
+                binds[pat.name] = subject
+            return True
+        if isinstance(pat, ast.MatchOr):
+            return any(self._match_pattern(p_, subject, binds, env, mod) for p_ in pat.patterns)
+        if isinstance(pat, ast.MatchValue):
+            return bool(self.truth(self.compare("==", subject, self.ev(pat.value, env, mod))))
+        if isinstance(pat, ast.MatchSingleton):
+            return subject is pat.value
+        if isinstance(pat, ast.MatchClass):
+            cls = self.ev(pat.cls, env, mod)
+            if not self.truth(self.isinstance(subject, cls)):
+                return False
+            if pat.patterns:
+                raise Unsupported("positional sub-patterns in a class pattern")
+            for attr, sub in zip(pat.kwd_attrs, pat.kwd_patterns):
+                try:
+                    v_ = self.getattr(subject, attr)
+                except Raised:
+                    return False
+                if not self._match_pattern(sub, v_, binds, env, mod):
+                    return False
+            return True
+        if isinstance(pat, ast.MatchSequence):
+            if not isinstance(subject, (list, tuple)) or is_sym(subject):
+                return False
+            star = [i for i, p_ in enumerate(pat.patterns) if isinstance(p_, ast.MatchStar)]
+            if not star:
+                return len(subject) == len(pat.patterns) and all(self._match_pattern(p_, x_, binds, env, mod) for p_, x_ in zip(pat.patterns, subject))
+            i = star[0]
+            tail = len(pat.patterns) - i - 1
+            if len(subject) < len(pat.patterns) - 1:
+                return False
+            if not all(self._match_pattern(p_, x_, binds, env, mod) for p_, x_ in zip(pat.patterns[:i], subject[:i])):
+                return False
+            if tail and not all(self._match_pattern(p_, x_, binds, env, mod) for p_, x_ in zip(pat.patterns[i + 1:], subject[len(subject) - tail:])):
+                return False
+            if pat.patterns[i].name:
+                binds[pat.patterns[i].name] = list(subject[i:len(subject) - tail])
+            return True
+        raise Unsupported(f"match pattern {type(pat).__name__}")
+
     def x_Delete(self, s, env, mod):
         raise Unsupported("del")
 
@@ -1389,6 +1446,8 @@ class Interp:
             if isinstance(v, PyFn):
                 return Bound(v, obj)
             if isinstance(v, Closure):
+                if getattr(v, "is_property", False):
+                    return self.call(Bound(v, obj), [], {})         # @property: reading the attribute runs the getter
                 if getattr(v, "is_classmethod", False):
                     return Bound(v, obj.cls)
                 if getattr(v, "is_staticmethod", False):
@@ -2435,15 +2494,19 @@ def _decorate_builtin_wrappers(interp):
     def sm(i, args, kwargs):
         args[0].is_staticmethod = True
         return args[0]
+    def pm(i, args, kwargs):
+        args[0].is_property = True
+        return args[0]
     interp.ext_models.setdefault("builtins.classmethod", cm)
     interp.ext_models.setdefault("builtins.staticmethod", sm)
+    interp.ext_models.setdefault("builtins.property", pm)
 
 
 _orig_load = Interp.load_name
 
 
 def _load_name(self, name, env, mod):
-    if name in ("classmethod", "staticmethod"):
+    if name in ("classmethod", "staticmethod", "property"):
         _decorate_builtin_wrappers(self)
         return Ext("builtins." + name)
     return _orig_load(self, name, env, mod)
